@@ -5,6 +5,7 @@ import LeptosModel.Proofs.KeyedBuild
 import LeptosModel.Proofs.KeyedExact
 import LeptosModel.Proofs.KeyedRepair
 import LeptosModel.Proofs.KeyedNested
+import LeptosModel.Proofs.KeyedOwners
 /-!
 # C11 — keyed lists keep item identity and end in the new order
 
@@ -31,6 +32,7 @@ theorems about them stay as regression theorems.
 | `C11_dom_order` | **full** (no hypothesis beyond the state invariants) — since the repair |
 | `C11_history`, `C11_history_dom_order` | full, every step of every history |
 | `C11_build_detached`, `C11_rebuild_unmounted`, `C11_mount_before_sibling`, `C11_unmount`, `C11_insert_before_this`, `C11_life_cycle` | full: a list that is built, rebuilt without being in the DOM (no parent yet, or the stale parent kept by `unmount`), mounted before any existing sibling, updated, unmounted, … |
+| `C11_retained_row_state_kept` | full: the row-local state (the item's owner) of a retained item is kept with its value, that of a removed item is disposed, a new item starts fresh |
 | `C11_nested_inner_update`, `C11_nested_outer_update` | full: a keyed list as an item of a keyed list, updated on its own / moved as a block |
 | `C11_dom_order_old_witness` | regression: the code before the repair: `[0,1,2] → [4,3,2,1,0]` ends as 1,4,3,2,0 |
 | `C11_dom_order_old_iff` | regression: before the repair the order was right IFF `settledMonotone diffOld` |
@@ -73,6 +75,14 @@ theorem C11_build_wf (bs : Nat) (keys : List Key) (kids : List NodeId) (next : N
     (hk : keys.Nodup) (hkids : kids.Nodup) (hfr : ∀ n ∈ kids, n < next) :
     Wf ((build bs keys kids next).mount none) ∧ Mounted kids [] ((build bs keys kids next).mount none) :=
   build_mount_wf bs keys kids next hbs hk hkids hfr
+
+/-- `Keyed::hydrate` (server HTML adopted in place) yields a `Wf`, `Mounted` list with a parent — also when the
+list is the FIRST child of its parent (`pre = []`) -/
+theorem C11_hydrate_wf (bs : Nat) (keys : List Key) (pre : List NodeId) (next : Nat) (hbs : 0 < bs)
+    (hk : keys.Nodup) (hpre : pre.Nodup) (hfr : ∀ n ∈ pre, n < next) :
+    Wf (hydrate bs keys pre next) ∧ Mounted pre [] (hydrate bs keys pre next) ∧
+    (hydrate bs keys pre next).parent = true :=
+  ⟨(build_mount_wf bs keys pre next hbs hk hpre hfr).1, (build_mount_wf bs keys pre next hbs hk hpre hfr).2, rfl⟩
 
 /-! ## storage, identity, set_index -/
 
@@ -158,6 +168,32 @@ theorem C11_identity_nodes_leave (s : KState) (to : List Key) (pre post : List N
     (hm : Mounted pre post s) (hto : to.Nodup) :
     ∀ r ∈ somes s.w.storage, r.key ∉ to → ∀ n ∈ r.nodes, n ∉ (rebuild s to).w.kids :=
   rebuild_removed_nodes_leave diff diffLike_diff s to pre post hs hm hto
+
+/-! ## row-local state -/
+
+/-- **retained rows keep their state**: the reactive state a row body creates for itself lives in the row's
+owner, which belongs to the item state (`Owners`, one cell per item). After `rebuild` (with or without a
+parent) a retained item — the very same item, `C11_identity` — still has its owner with the value it held
+(whatever was written to it before the update); the owner of a removed item is disposed; a new item has a
+fresh owner whose body ran once. `hown`: owners exist only for stored items. -/
+theorem C11_retained_row_state_kept (fresh : Key → Nat) (s : KState) (to : List Key) (o : Owners)
+    (hs : Wf s) (hto : to.Nodup) (hown : ∀ p ∈ o, p.1 ∈ somes s.w.storage) :
+    (∀ it ∈ somes s.w.storage, it.key ∈ to →
+      (ownersAfter fresh o (rebuild s to)).get it = some ((o.get it).getD (fresh it.key))) ∧
+    (∀ it ∈ somes s.w.storage, it.key ∉ to → (ownersAfter fresh o (rebuild s to)).get it = none) ∧
+    (∀ it ∈ somes (rebuild s to).w.storage, it.key ∉ s.hashed →
+      (ownersAfter fresh o (rebuild s to)).get it = some (fresh it.key)) :=
+  owners_after_rebuild diff diffLike_diff fresh s to o hs hto hown
+
+/-- non-vacuity / regression shape of round-4 seed 2: row 1 holds a written value (7) across a reorder that
+removes row 0 and adds row 5 -/
+example :
+    let s := (build 1 [0, 1, 2] [] 0).mount none
+    let o : Owners := (ownersAfter (· * 100) [] s).set ⟨1, [1]⟩ 7
+    (ownersAfter (· * 100) o (rebuild s [2, 1, 5])).get ⟨1, [1]⟩ = some 7 ∧
+    (ownersAfter (· * 100) o (rebuild s [2, 1, 5])).get ⟨0, [0]⟩ = none ∧
+    (ownersAfter (· * 100) o (rebuild s [2, 1, 5])).map (·.2) = [200, 7, 500] := by
+  decide
 
 /-! ## DOM order -/
 
